@@ -212,7 +212,7 @@ int KSI_base32Encode(const unsigned char *data, size_t data_len, size_t group_le
 	for (bits_read = 0;	(next_bits = readNextBits(data, data_len, bits_read)) != -1; bits_read += 5) {
 		tmp[ret_len++] = base32EncodeTable[next_bits];
 
-		if (group_len > 0 && ret_len % (group_len + 1) == group_len && bits_read + 5 < data_len * 8) {
+		if (group_len > 0 && ret_len % (group_len + 1) == group_len && (bits_read + 5 < data_len * 8 || (bits_read + 5) % 40 != 0)) {
 			tmp[ret_len++] = '-';
 		}
 	}
